@@ -655,9 +655,9 @@ var _ = bytes.Equal
 
 func init() {
 	fw.Register(&fw.Monitor{
-		ID:    "C07",
-		Title: "GeoJSON round-trips geometries, features and collections; decoding is total",
-		Rule: "models with finite ordinates in XY/XYZ/XYM/XYZM/Layout(5,6,8), nested collections with mixed member layouts: geojson.Marshal output must be valid JSON for an independent RFC 8259 reader, denote the same type/nesting/numbers (numbers converted exactly), and Unmarshal / Geometry.Decode must return the model after the format's carve-outs (XYM->XYZ, empties->default layout; non-XY with empty first component and multipoints with empty members need not read back but must give an error or a well-formed geometry); Features (ids absent/ascii/unicode/escapes/numeric-looking, bbox of 4/6 numbers or none, random JSON property maps, null geometry) and FeatureCollections round trip; numeric ids normalise to their decimal string; decoders fed valid documents, structure-aware mutations, byte mutations, deep nesting/huge exponents and random bytes must not panic and must return an error or well-formed geometries. distinct_nontrivial = distinct shape signatures + feature shapes + numeric ids",
+		ID:     "C07",
+		Title:  "GeoJSON round-trips geometries, features and collections; decoding is total",
+		Rule:   "models with finite ordinates in XY/XYZ/XYM/XYZM/Layout(5,6,8), nested collections with mixed member layouts: geojson.Marshal output must be valid JSON for an independent RFC 8259 reader, denote the same type/nesting/numbers (numbers converted exactly), and Unmarshal / Geometry.Decode must return the model after the format's carve-outs (XYM->XYZ, empties->default layout; non-XY with empty first component and multipoints with empty members need not read back but must give an error or a well-formed geometry); Features (ids absent/ascii/unicode/escapes/numeric-looking, bbox of 4/6 numbers or none, random JSON property maps, null geometry) and FeatureCollections round trip; numeric ids normalise to their decimal string; decoders fed valid documents, structure-aware mutations, byte mutations, deep nesting/huge exponents and random bytes must not panic and must return an error or well-formed geometries. distinct_nontrivial = distinct shape signatures + feature shapes + numeric ids",
 		Assume: []string{"reference JSON reader in harness/ref (RFC 8259 grammar, RFC 7946 appendix A vectors)", "properties are compared through encoding/json canonical output"},
 		Classes: []fw.Class{
 			{Name: "geometry-roundtrip", Quick: 40000, Thorough: 1500000, Run: c07Geometry},
